@@ -692,7 +692,11 @@ def impl(case: Case) -> str:
     stage = lambda: ";".join(show_snap(read_at(obj, q, rs), tree, rs, st.get("unordered", False)) for q in qs)
     stages = [stage()]
     for (child, form, a, b, v) in ups:
-        target = obj.children[child] if rs.random() < 0.5 else getattr(obj, child)
+        try:                 # a declared child that cannot be reached counts as an update that raised
+            target = obj.children[child] if rs.random() < 0.5 else getattr(obj, child)
+        except (KeyError, AttributeError):
+            stages.append("ERR")
+            continue
         ok = call_update(target, form, a, b, v, rs)
         stages.append(stage() if ok else "ERR")
     return "|".join(stages)
@@ -729,7 +733,11 @@ def impl_history(parsed, rs: random.Random) -> str:
                        else ";".join(show_snap(read_at(o, q, rs), first, rs, unordered) for q in qs))
         else:
             _, i, (child, form, a, b, v) = op
-            target = objs[i] if kind == "h" else target_of(objs[i], first, child, rs)
+            try:
+                target = objs[i] if kind == "h" else target_of(objs[i], first, child, rs)
+            except (KeyError, AttributeError, IndexError):
+                out.append("ERR")
+                continue
             out.append("u" if call_update(target, form, a, b, v, rs) else "ERR")
     return "|".join(out)
 
@@ -1395,7 +1403,7 @@ MALFORMED = [
 
 
 def generate(rng: random.Random, tier: str):
-    n_param, n_node, n_scale, n_hist, n_thist = ((24000, 3000, 3000, 7000, 2500) if tier == "quick"
+    n_param, n_node, n_scale, n_hist, n_thist = ((20000, 3000, 2500, 6000, 2500) if tier == "quick"
                                                  else (160000, 20000, 20000, 40000, 15000))
     out = [gen_param_case(rng) for _ in range(n_param)]
     out += [gen_node_case(rng) for _ in range(n_node)]
@@ -1537,6 +1545,18 @@ PROP = Prop(
           "several objects: `clone()` of a Parameter / ParameterNode / ParameterScale creates a further object, updates and reads "
           "address any object in any interleaving (read before an update, the updated object and another one read in either "
           "order, every object read at the end); each object must read what its own entries and the updates addressed to it say. "
+          "Objects are built through every construction route (implementation-side glue, the model receives the declared tree): "
+          "Parameter / ValuesHistory / helpers.load_parameter_file on a written YAML file; ParameterNode from a `data=` mapping "
+          "(reserved keys description/metadata/unit/reference/documentation interleaved, all-digit names as int keys), from a "
+          "directory of .yaml/.yml files with sub-directories, `index.yaml` and files of other types, by `add_child` on an empty "
+          "node (followed by refused attempts: an existing name, a non-parameter), by `merge` of two nodes; routes are drawn "
+          "independently at every level. Child names are plain, all-digit, need YAML quoting (`a-b`, `x.y`, `k'q`, `n+1`) or are a "
+          "keyword. A node-at-instant is inspected through one access form drawn per snapshot: iteration + item/attribute, `name "
+          "in node`, attribute access (absent = ParameterNotFoundError), item access (absent = KeyError), the last three tried on "
+          "every declared child name. 20% of the node cases are groups nested 3-4 deep whose innermost members start late, are "
+          "null or never start; 2% offer the same child name twice (refused on every route, not binding). Values are ints, "
+          "dyadic floats, booleans, nulls and lists of those. Scales: 1-4 brackets (single bracket 40%), 20% of the brackets have a "
+          "threshold that starts later than their value. "
           "`par t`: "
           "ParameterNode trees of 1-5 children (parameters, sub-nodes, scales) with 0-2 updates of child parameters, and "
           "ParameterScale objects of 1-4 brackets with independently dated threshold / rate / amount / average_rate, read at "
@@ -1551,6 +1571,10 @@ PROP = Prop(
         "periods.period / periods.instant / Instant.offset are the business of C04/C05; here a period argument is built to denote exactly the days a..b computed with datetime",
         "claim domain (Appendix A): start <= stop, dated values; reversed ranges and refused call forms are compared but not binding; YAML file loading is not exercised (data= constructors)",
         "scale values are dyadic rationals on which the float additions of add_bracket are exact",
+        "child names do not collide with attributes of the node classes themselves: a child named `children`, `add_child` or "
+        "`_children` makes the group impossible to build or evaluate at the pinned tree (reported, not generated)",
+        "update(): `start` is passed as Instant, ISO string or date, `stop` as Instant (the code calls stop.offset; str and date "
+        "stops raise AttributeError at the pinned tree); text values are refused by the loader (ALLOWED_PARAM_TYPES) and not generated",
     ],
     exhaustive_note=("thorough: all 256 subsets of entry dates of the 8-day window 2020-02-25..2020-03-03 (distinct values; and with "
                      "every second entry null) x all 55 closed ranges and 10 open starts over the window +-1 x {new value, null}, "
